@@ -19,7 +19,7 @@ EXTENDS Oracle, Json
 
 Trace == ndJsonDeserialize("trace.ndjson")
 
-t_FORD == <<"f1", "f2">>
+t_FORD == <<"f1", "f2", "f3">>
 
 VARIABLES l, L, G, R
 \* l: next line; L: observed state; G: submissions ghost; R: restart / failed-tx ghosts
@@ -67,6 +67,7 @@ Ahead(c, post, hh)  == {f \in FEEDERS : FeederLive(c, f, hh) /\ post.prices[TokO
 
 NewEntries(pre, post, t) == {x \in Rng(post.prices[t].list) : x.r >= pre.prices[t].next}
 FeedersOfTok(c, t) == {f \in FEEDERS : c.fd[f].tok = t}
+PresentF(c) == {f \in FEEDERS : Present(c.fd, f)}
 
 C12State(post) ==
   T(\A t \in TOKENS : Consecutive(post.prices[t]), "C12_NotConsecutive") \cup
@@ -141,7 +142,7 @@ CauseOf(twin, post, f, l7, l7m, l26, fs) ==
 
 \* feeders on which the restarted node and its twin show different stored state
 DivF(post, twin) ==
-  {f \in FEEDERS :
+  {f \in {x \in FEEDERS : Present(post.c.fd, x)} :
      \/ post.prices[TokOf(post.c, f)] # twin.prices[TokOf(post.c, f)]
      \/ {k \in DOMAIN post.nonce : k[2] = f} # {k \in DOMAIN twin.nonce : k[2] = f}
      \/ \E k \in DOMAIN post.nonce \cap DOMAIN twin.nonce : k[2] = f /\ post.nonce[k] # twin.nonce[k]
@@ -211,7 +212,7 @@ Next ==
            l7m  == IF ~line.ok THEN {f \in FEEDERS : WorkerOr0(L, f) # WorkerOr0(post, f)} ELSE {}
            r2   == [R EXCEPT !.l7 = @ \cup l7, !.l7m = @ \cup l7m,
                              !.rej = IF ~line.ok /\ l7m # {} THEN AddSubs(@, c, L.h, a.msgs) ELSE @]
-           finF == {f \in msgsF : post.prices[TokOf(c, f)].next > L.prices[TokOf(c, f)].next}
+           finF == {f \in {x \in msgsF : Present(c.fd, x)} : post.prices[TokOf(c, f)].next > L.prices[TokOf(c, f)].next}
            fin  == [f |-> finF,
                     \* the stored round id was already out of step with the round arithmetic before this tx
                     o |-> finF # {} /\ \A f \in finF : f \in DOMAIN L.rounds /\ L.rounds[f].next # L.prices[TokOf(c, f)].next,
@@ -223,16 +224,17 @@ Next ==
                    StrictTags(L, post, "Tx", a, line.ok, line.st)
        IN /\ L' = post /\ G' = g2 /\ R' = r2
           /\ Emit(l, "Tx", tags, r2, post, twin, fin, msgsF)
-     ELSE IF line.ev = "Upd" THEN
+     ELSE IF line.ev \in {"Upd", "Add"} THEN
        LET post == FromLog(line.st, L.c)
            twin == FromLog(line.cst, L.c)
-           a    == [f |-> line.a.f, end |-> line.a.end]
+           a    == IF line.ev = "Upd" THEN [f |-> line.a.f, end |-> line.a.end]
+                   ELSE [tok |-> line.a.tok, start |-> line.a.start, iv |-> line.a.iv, sr |-> line.a.sr]
            tags == C12State(post) \cup
                    T(\A t \in TOKENS : post.prices[t] = L.prices[t], "C12_RecordedByRejectedTx") \cup
                    (IF R.restarted THEN C14Tags(post, twin, line.ok, line.cok, line.st.apphash = line.cst.apphash) ELSE {}) \cup
-                   StrictTags(L, post, "Upd", a, line.ok, line.st)
+                   StrictTags(L, post, line.ev, a, line.ok, line.st)
        IN /\ L' = post /\ G' = G /\ R' = R
-          /\ Emit(l, "Upd", tags, R, post, twin, NoFin, {})
+          /\ Emit(l, line.ev, tags, R, post, twin, NoFin, {})
      ELSE IF line.panic THEN
        \* C11: BeginBlock / EndBlock / Commit panicked (the driver recovered it): the chain would halt here.
        \* The line carries no new projection; the behaviour ends.
@@ -257,7 +259,7 @@ Next ==
            fsN  == IF a.vu = <<>> THEN {} ELSE {<<f, L.rounds[f].base>> : f \in {x \in DOMAIN L.rounds : L.rounds[x].status = StatusOpen}}
            r1   == [R EXCEPT !.l26 = @ \cup UNION {{L.rmsgs[b][i].f : i \in DOMAIN L.rmsgs[b]} : b \in gone}, !.fs = @ \cup fsN]
            r2   == IF a.restart
-                   THEN [r1 EXCEPT !.restarted = TRUE, !.cause = [f \in FEEDERS |-> @[f] \cup CauseOf(twin, post, f, r1.l7, r1.l7m, r1.l26, r1.fs)], !.at = Append(@, post.h)]
+                   THEN [r1 EXCEPT !.restarted = TRUE, !.cause = [f \in FEEDERS |-> @[f] \cup (IF Present(post.c.fd, f) THEN CauseOf(twin, post, f, r1.l7, r1.l7m, r1.l26, r1.fs) ELSE {})], !.at = Append(@, post.h)]
                    ELSE r1
            tags == C12State(post) \cup C12End(L, post) \cup
                    (IF r2.restarted THEN C14Tags(post, twin, line.ok, line.cok, line.st.apphash = line.cst.apphash) ELSE {}) \cup
